@@ -1,11 +1,14 @@
 from props.common import *
+from props.boundedrun import script
 ID = "C02"
 LEVEL = "proof"
 TAGS = ("C02",)
 CONTRACT_MODULES = ALL_CONTRACTS
-FUNCTIONS = [S + "processLinearMoves", S + "isAnyPointExcluded", S + "isPointExcluded", S + "processExtendedGcode"] + HANDLER_FUNCS
+FUNCTIONS = [S + "processLinearMoves", S + "isAnyPointExcluded", S + "isPointExcluded", S + "processExtendedGcode"] + HANDLER_FUNCS + [S + "resetState"]
 ASSUMPTIONS = ["A1", "A2", "A3", "A4", "INDUCTION"]
-EXTRA_ASSUMPTIONS = ["configured extended codes: processExtendedGcode returns None with an empty write set outside an episode (clause C02.passes-outside-episodes)"]
+BOUNDED = [script("retract_params.py")]
+EXTRA_ASSUMPTIONS = ["GCODE_PARAMS_REGEX.sub is seen as the uninterpreted function 'parameter text of the command'; checked bounded (bounded/retract-params)",
+                     "configured extended codes: processExtendedGcode returns None with an empty write set outside an episode (clause C02.passes-outside-episodes)"]
 EXPLANATION = ("Invariant J (no episode open, nothing deferred, no recovery owed) is preserved by every handler when no destination "
                "is excluded, and under J the result is None or the one-element list holding the original command -- for both values "
                "of g90InfluencesExtruder (symbolic) and arbitrary region lists. " + STREAM_NOTE)
